@@ -36,6 +36,21 @@ class MoveToDjangoMigrations(BaseUpgradeMethodMutation):
         """
         self.mark_applied = set(mark_applied)
 
+    def get_hint_params(self):
+        """Return parameters for the mutation's hinted evolution.
+
+        Returns:
+            list of unicode:
+            A list of parameter strings to pass to the mutation's constructor
+            in a hinted evolution.
+        """
+        if self.mark_applied == set(['0001_initial']):
+            return []
+
+        return [
+            self.serialize_attr('mark_applied', sorted(self.mark_applied)),
+        ]
+
     def generate_dependencies(self, app_label, **kwargs):
         """Return automatic dependencies for the parent evolution.
 
